@@ -309,6 +309,10 @@ bool DetailedPlacement::canPlace(int c, int row, int pred, int x) const {
   if (isPlaced(c)) {
     throw std::runtime_error("Cannot attempt to place already placed cell");
   }
+  if (!isRowAllowed(c, row)) {
+    // The cell polarity forbids this row
+    return false;
+  }
   return x >= siteBegin(row, pred) && x + cellWidth(c) <= siteEnd(row, pred);
 }
 
@@ -325,6 +329,10 @@ bool DetailedPlacement::canInsert(int c, int row, int pred) const {
     // Do not insert before itself
     return false;
   }
+  if (!isRowAllowed(c, row)) {
+    // The cell polarity forbids this row
+    return false;
+  }
   return siteEnd(row, pred) - siteBegin(row, pred) >= cellWidth(c);
 }
 
@@ -334,6 +342,10 @@ bool DetailedPlacement::canSwap(int c1, int c2) const {
   }
   if (c1 == c2) {
     // Do not swap a cell with itself
+    return false;
+  }
+  if (!isRowAllowed(c1, cellRow(c2)) || !isRowAllowed(c2, cellRow(c1))) {
+    // The cell polarity forbids the row of the other cell
     return false;
   }
   if (cellPred(c1) == c2 || cellPred(c2) == c1) {
@@ -557,6 +569,9 @@ void DetailedPlacement::check() const {
       CellRowPolarity cellPolarity = cellRowPolarity(c);
       CellOrientation rowOrient = rows_[i].orientation;
       CellOrientation expected = cellOrientationInRow(cellPolarity, rowOrient);
+      if (expected == CellOrientation::INVALID) {
+        throw std::runtime_error("Cell is in a row forbidden by its polarity");
+      }
       if (expected != CellOrientation::UNKNOWN && cellOrient != expected) {
         throw std::runtime_error(
             "Cell orientation seems incompatible with its row");
